@@ -3,6 +3,7 @@ See DESIGN.md §4 C18."""
 import contextlib
 import io
 import json
+import os
 import random
 from fractions import Fraction
 from functools import reduce
@@ -419,6 +420,15 @@ def correspondence(res, tier, rng):
                 a = rand_superop(rng, case["dims"][site], "nontp", False, gentle=True)[0]
                 case["regs"].append({"post": post, "site": site, "step": stp, "op": jmat(a)})
             res.count("tebd:interleaved-stack")
+        if i in (1, 2):
+            # execution modes of the backend: controls on several sites at one step and side
+            case["parallel"] = "multithread" if i == 1 else "multiprocess"
+            side = rng.random() < 0.5
+            stp = case["start_step"] + rng.randrange(0, case["nsteps"] + (0 if side else 1))
+            for site in range(len(case["dims"])):
+                a = rand_superop(rng, case["dims"][site], "nontp", False, gentle=True)[0]
+                case["regs"].append({"post": side, "site": site, "step": stp, "op": jmat(a)})
+            res.count("tebd:parallel=%s" % case["parallel"])
         obs = run_pttebd(case)
         res.count("tebd:sites=%d" % len(case["dims"]))
         res.count("tebd:hamiltonian=%s" % case["with_h"])
@@ -489,11 +499,43 @@ def gen_chain_case(rng, with_h, stacks=None):
             "regs": regs}
 
 
+def fresh_interpreter(what, cases, timeout=900):
+    """evaluate run_pttebd ("obs") or oracle_chain ("oracle") for a list of cases in ONE fresh
+    interpreter (same tree under test); returns the list of results"""
+    import subprocess
+    import sys
+    code = ("import json, sys\n"
+            "from harness import run_C18 as m\n"
+            "what, cases = json.load(sys.stdin)\n"
+            "out = []\n"
+            "for c in cases:\n"
+            "    if what == 'obs':\n"
+            "        out.append([{'single': [m.jmat(x) for x in o['single']], 'joint': m.jmat(o['joint'])}\n"
+            "                    for o in m.run_pttebd(c)])\n"
+            "    else:\n"
+            "        try:\n"
+            "            out.append(list(m.oracle_chain(c)))\n"
+            "        except Exception as e:\n"
+            "            out.append([False, 'raised %s: %s' % (type(e).__name__, e)])\n"
+            "print('C18RESULT' + json.dumps(out))\n")
+    env = dict(os.environ, C18_CHILD="1")
+    p = subprocess.run([sys.executable, "-c", code], cwd=fw.VERIF, env=env,
+                       input=json.dumps([what, cases]), capture_output=True, text=True, timeout=timeout)
+    for line in p.stdout.splitlines():
+        if line.startswith("C18RESULT"):
+            return json.loads(line[len("C18RESULT"):])
+    raise fw.Infra("fresh interpreter failed: " + (p.stdout + p.stderr)[-1500:])
+
+
 def run_pttebd(case):
     """the real PtTebd: recorded single-site states and the joint state, per recorded step.
     case["mode"]: "before" (controls registered before construction, default), or a late mode in
     which the PtTebd object is built first: "object" (empty ChainControl handed over, filled
     afterwards), "property" (chain_control=None, filled through tebd.chain_control), "setter"."""
+    if case.get("parallel") and os.environ.get("C18_CHILD") != "1":
+        # pool-based execution modes run in a fresh interpreter (as a user script would)
+        return [{"single": [unjmat(x) for x in o["single"]], "joint": unjmat(o["joint"])}
+                for o in fresh_interpreter("obs", [case])[0]]
     mode = case.get("mode", "before")
     end = case["start_step"] + case["nsteps"]
     if mode == "before":
@@ -527,7 +569,8 @@ def run_pttebd_history(case):
     sites = list(range(n)) + [tuple(range(n))]
     t = oqupy.PtTebd(mps, chain, [None] * n, par,
                      chain_control=cc if mode == "object" else None, start_time=0.0,
-                     start_step=int(case["start_step"]), dynamics_sites=sites)
+                     start_step=int(case["start_step"]), dynamics_sites=sites,
+                     backend_config={"parallel": case["parallel"]} if case.get("parallel") else None)
     if mode == "setter":
         t.chain_control = cc
     elif mode == "property":
@@ -1141,6 +1184,30 @@ def search(res, rng=None):
                     dict(base, dims=[2, 2, 2], start_step=s0, nsteps=nsteps, regs=regs,
                          states=[jmat(rand_state(rng, 2, False)) for _ in range(3)],
                          hams=[jmat(np.zeros((2, 2))) for _ in range(3)], with_h=False))
+    # -- execution modes of the backend: controls on 2-3 sites at one step and side ----------------
+    mode_cases = []
+    for post in (False, True):
+        for (s0, nsteps, stp) in ((0, 2, 0), (0, 2, 1), (0, 2, 2), (2, 2, 2)):
+            if post and stp == s0 + nsteps:
+                continue
+            for sites in ((0, 1), (0, 1, 2), (2, 0)):
+                base = gen_chain_case(rng, with_h=True, stacks=1)
+                mode_cases.append(dict(
+                    base, dims=[2, 2, 2], start_step=s0, nsteps=nsteps,
+                    states=[jmat(rand_state(rng, 2, True)) for _ in range(3)],
+                    hams=[jmat(rand_herm(rng, 2)) for _ in range(3)],
+                    regs=[{"post": post, "site": st, "step": stp, "op": jmat(op())} for st in sites]))
+    for c in mode_cases[::3]:
+        run("PtTebd controls on several sites at one step (sequential)", c)
+    for par in ("multithread", "multiprocess"):
+        sel = [dict(c, parallel=par) for c in mode_cases[(1 if par == "multithread" else 2)::3]]
+        try:
+            results = fresh_interpreter("oracle", sel)
+        except fw.Infra as e:
+            results = [[False, str(e)[-300:]]] * len(sel)
+        for c, (ok, detail) in zip(sel, results):
+            if not ok:
+                res.fail("PtTebd controls on several sites at one step (%s)" % par, dict(c, how=detail))
     # -- object lifetime: controls registered after the PtTebd object was built -------------------
     for mode in ("object", "property", "setter", "object", "property"):
         for _ in range(2):
